@@ -113,7 +113,7 @@ func (p *PanicInfo) Site() string {
 	return "unknown"
 }
 
-var rxFrame = regexp.MustCompile(`(?m)^(github\.com/go-openapi/analysis[^\s(]*)\(`)
+var rxFrame = regexp.MustCompile(`(?m)^(github\.com/go-openapi/analysis\S*)\(`)
 
 // Call runs f (one call into the library) under recover() with the hook monitor armed.
 // phaseFn, when non-nil, is invoked synchronously at each Flatten phase boundary.
